@@ -1,6 +1,7 @@
 //! E3 `primsim`: concurrency primitives and bookkeeping structures, each driven by a handful of
 //! client tasks whose every await is a scheduling point of the gate scheduler, against a small
 //! executable reference model and history checks.
+pub mod abandon;
 pub mod addrs;
 pub mod channel;
 pub mod fetch;
@@ -246,6 +247,25 @@ pub fn finish<E>(
 
 /// Runs one primitive scenario by name.
 pub fn run_case(mode: &str, seed: u64, keep_log: bool) -> (CaseResult, Vec<String>) {
+    if mode == "abandon" && abandon::abandons(seed) {
+        // The expected end of this run is the scope aborting the process (see prim/abandon.rs).
+        let r = crate::kit::entropy::isolated_or_signal(seed, libc::SIGABRT, || {
+            let (mut r, log) = run_case_inner(mode, seed, keep_log);
+            r.draws = crate::kit::tape::draws();
+            (r, log)
+        });
+        return match r {
+            Ok(x) => x,
+            Err(_) => {
+                let hist: SharedHist<abandon::Ev> = new_hist(keep_log);
+                hist.note("the caller dropped the scope's future while tasks of the scope were running: the process aborted (expected)".into());
+                hist.probe("abandoned_scope_aborted_the_process");
+                hist.fault("scope_future_dropped");
+                let sched = Sched::new(seed, Policy::Fifo, false);
+                finish(seed, "abandon", &sched, &hist, 0, true, vec![1], serde_json::json!({"abandon": true, "aborted": true}), None)
+            }
+        };
+    }
     crate::kit::entropy::isolated(seed, || {
         let (mut r, log) = run_case_inner(mode, seed, keep_log);
         r.draws = crate::kit::tape::draws();
@@ -263,6 +283,7 @@ fn run_case_inner(mode: &str, seed: u64, keep_log: bool) -> (CaseResult, Vec<Str
             "limiter" => limiter::run(seed, sched, keep_log).await,
             "channel" => channel::run(seed, sched, keep_log).await,
             "scopes" => scopes::run(seed, sched, keep_log).await,
+            "abandon" => abandon::run(seed, sched, keep_log).await,
             "store" => store::run(seed, sched, keep_log).await,
             "fetch" => fetch::run(seed, sched, keep_log).await,
             "addrs" => addrs::run(seed, sched, keep_log).await,
